@@ -14,6 +14,9 @@ type Scenario struct {
 	Prop string
 	// Doc is a one-line description used in the evidence.
 	Doc string
+	// Pre, when set, runs first in a bubble of its own (free-running reference executions); its result is handed to Run
+	// as World.Pre. It draws from the same tape.
+	Pre func(t *Tape) any
 	// Run builds the system inside the bubble, drives it through w, and reports through w.Violate.
 	// It must leave the bubble drained (every context cancelled, w.Run() called until all tasks are done).
 	Run func(w *World)
@@ -56,6 +59,17 @@ func execute(t *testing.T, scn *Scenario, tape *Tape, trace bool) (res *RunResul
 	}()
 	// A subtest per run: when the race detector (or anything else) fails the bubble's test, synctest.Test calls FailNow,
 	// which must only end this run's goroutine, not the worker loop.
+	var pre any
+	if scn.Pre != nil {
+		t.Run("pre", func(t *testing.T) {
+			defer func() {
+				if r := recover(); r != nil && !strings.Contains(fmt.Sprint(r), "deadlock") {
+					pre = fmt.Errorf("reference run panicked: %v", r)
+				}
+			}()
+			synctest.Test(t, func(t *testing.T) { pre = scn.Pre(tape) })
+		})
+	}
 	t.Run("run", func(t *testing.T) {
 		defer func() {
 			if r := recover(); r != nil {
@@ -71,7 +85,7 @@ func execute(t *testing.T, scn *Scenario, tape *Tape, trace bool) (res *RunResul
 				res.Violations = append(res.Violations, Violation{Class: "harness-panic", Detail: msg + "\n" + string(buf[:n])})
 			}
 		}()
-		execBubble(t, scn, tape, trace, &res)
+		execBubble(t, scn, tape, trace, pre, &res)
 	})
 	if raceBuild && res != nil {
 		res.Violations = append(res.Violations, collectRaces()...)
@@ -79,11 +93,12 @@ func execute(t *testing.T, scn *Scenario, tape *Tape, trace bool) (res *RunResul
 	return res
 }
 
-func execBubble(t *testing.T, scn *Scenario, tape *Tape, trace bool, out **RunResult) {
+func execBubble(t *testing.T, scn *Scenario, tape *Tape, trace bool, pre any, out **RunResult) {
 	var res *RunResult
 	defer func() { *out = res }()
 	synctest.Test(t, func(t *testing.T) {
 		w := NewWorld(tape, scn.Name, trace)
+		w.Pre = pre
 		defer w.Close()
 		func() {
 			defer func() {
